@@ -138,7 +138,7 @@
     #[kani::proof]
     fn date_difference() { date_difference_in(1, 3_652_059) }   // 0001-01-01 .. 9999-12-31
     #[kani::proof]
-    fn date_difference_1990_2040() { date_difference_in(726_468, 745_000) }
+    fn date_difference_1990_2040() { date_difference_in(735_600, 739_300) }
     fn date_difference_in(lo: i32, hi: i32) {
         let a = any_date_between(lo, hi);
         let b = any_date_between(lo, hi);
